@@ -37,9 +37,13 @@ func diffCoins(a, b sdk.Coins) string {
 	return d.String()
 }
 
-func (m *supplyMonitor) Init(r *kernel.Run)                                      { m.check(r, "after genesis") }
-func (m *supplyMonitor) AfterBegin(r *kernel.Run, _ abci.ResponseBeginBlock)     { m.check(r, "after BeginBlock") }
+func (m *supplyMonitor) Init(r *kernel.Run) { m.check(r, "after genesis") }
+func (m *supplyMonitor) AfterBegin(r *kernel.Run, _ abci.ResponseBeginBlock) {
+	m.check(r, "after BeginBlock")
+}
 func (m *supplyMonitor) AfterTx(r *kernel.Run, _ *kernel.Tx, _ []sdk.Msg, _ *kernel.TxResult) {
 	m.check(r, "after message")
 }
-func (m *supplyMonitor) AfterEnd(r *kernel.Run, _ abci.ResponseEndBlock) { m.check(r, "after EndBlock") }
+func (m *supplyMonitor) AfterEnd(r *kernel.Run, _ abci.ResponseEndBlock) {
+	m.check(r, "after EndBlock")
+}
